@@ -282,6 +282,17 @@ func buildChanges() []change {
 		c.remote.Spec = sims.KeySpecOf(ok)
 		c.remote.Key = pki.K(ok, 0)
 	})
+	add("used-signer-then-declares-other-spec", remoteOnly, func(c *ctx) {
+		// the signer object has honestly signed a request before (on another
+		// envelope object); now it declares a key spec its leaf does not have
+		if c.remote == nil {
+			return
+		}
+		if e, err := signature.NewEnvelope(c.b.MT); err == nil {
+			core.Guard(func() { e.Sign(sims.BaseRequest(c.b.MT, c.remote, signature.SigningScheme(c.b.Scheme))) })
+		}
+		c.remote.Spec = sims.KeySpecOf(otherKind(c.b.Kind))
+	})
 	add("attr-repeated-key-first-value-nil", always, func(c *ctx) {
 		c.req.ExtendedSignedAttributes = append(c.req.ExtendedSignedAttributes, signature.Attribute{Key: "dup", Value: nil}, signature.Attribute{Key: "dup", Value: "x"})
 	})
@@ -471,7 +482,13 @@ func sigOf(c *Case) string {
 // signer's key AND the chain's leaf to the same other key is a valid request.
 func repairs(a, b string) bool {
 	swap := map[string]bool{"declared-spec-not-leaf-key": true, "leaf-key-not-declared-spec": true}
-	return swap[a] && swap[b]
+	if swap[a] && swap[b] {
+		return true
+	}
+	// a used signer that declares the other key spec, over a chain for that other
+	// key: declaration and leaf agree again (what the signer signs with is its own affair)
+	other := map[string]bool{"used-signer-then-declares-other-spec": true, "leaf-key-not-declared-spec": true}
+	return other[a] && other[b]
 }
 
 func bases() []Base {
